@@ -5,34 +5,46 @@ import os
 import time
 
 
-def coop_loop():
+def _mark(flag_path):
+    if flag_path:
+        with open(flag_path, 'w') as f:
+            f.write(str(os.getpid()))
+
+
+def coop_loop(flag_path=None):
     """cooperative: a Python-level loop; an asynchronous exception surfaces within ~1 ms"""
+    _mark(flag_path)
     while True:
         time.sleep(0.001)
 
 
-def swallow_loop():
+def swallow_loop(flag_path=None):
     """the suite's malicious_loop: catches Exception (hence WorkerTerminatedError) and continues"""
     while True:
         try:
+            _mark(flag_path)
             while True:
                 time.sleep(0.001)
         except Exception:
             pass
 
 
-def sleep_block():
+def sleep_block(flag_path=None):
     """blocked in one long system call (async exceptions surface only when bytecode resumes)"""
+    _mark(flag_path)
     time.sleep(600)
 
 
 def frozen_c(flag_path=None):
     """interpreter lock held inside C: no Python thread of this process (incl. the control
     thread) gets to run until the builtin returns (hours)"""
-    if flag_path:
-        with open(flag_path, 'w') as f:
-            f.write(str(os.getpid()))
+    _mark(flag_path)
     return sum(range(10 ** 13))
+
+
+def pers_target(beh, flag_path=None):
+    """target of a persistent worker: one enqueue(beh, flag) puts the child into the behaviour"""
+    return {'coop': coop_loop, 'swallow': swallow_loop, 'sleep': sleep_block, 'frozen': frozen_c}[beh](flag_path)
 
 
 def quick_ret():
@@ -64,3 +76,31 @@ def sq_or_sleep(x):
     if x >= 1000:
         time.sleep(600)
     return x * x
+
+
+# ---- C20: children that die while starting ---------------------------------------------------
+class ExitOnLoad:
+    """a target that kills the child while the child unpickles it (before ProcessWorker._run starts)"""
+
+    def __reduce__(self):
+        return (os._exit, (3,))
+
+    def __call__(self, *a, **kw):
+        return None
+
+
+try:
+    from pyworkers.process import ProcessWorker as _PW
+    from pyworkers.persistent_process import PersistentProcessWorker as _PPW
+
+    class CtrlExitProcessWorker(_PW):
+        """the child dies in its control thread, i.e. before the main thread reports the identity"""
+
+        def _ctrl_fn(self):
+            os._exit(4)
+
+    class CtrlExitPersistentProcessWorker(_PPW):
+        def _ctrl_fn(self):
+            os._exit(4)
+except ImportError:        # pyworkers not importable here (e.g. manifest tooling): the classes are only needed by replays
+    pass
